@@ -401,7 +401,7 @@ pub fn check_case(ctx: &mut Ctx, case: &Case, cfg: &Cfg, props: &[String], want_
                         let o = o.as_u64().unwrap() as usize;
                         // (the four portability directives are exempt: whether such a word at the end of a declaration is the
                         // directive or a name is a heuristic in pasfmt, and the unchanged tree already lower-cases some names)
-                        let portability = |w: &str| matches!(w.to_ascii_lowercase().as_str(), "platform" | "deprecated" | "experimental" | "library");
+                        let portability = |w: &str| matches!(w.to_ascii_lowercase().as_str(), "library");
                         // (nor is a name next to a comment: the parser decides by the neighbouring token, and a comment there
                         // already changes the decision on the unchanged tree for words like `Stored`)
                         let next_to_comment = |t: &Tok| {
@@ -409,7 +409,41 @@ pub fn check_case(ctx: &mut Ctx, case: &Case, cfg: &Cfg, props: &[String], want_
                             (k > 0 && (tin[k - 1].is_comment() || tin[k - 1].is_directive())) || tin.get(k + 1).is_some_and(|x| x.is_comment() || x.is_directive())
                         };
                         if o < pin.len() && pin[o].text(text) != pout[o].text(&out) && !portability(pin[o].text(text)) && !next_to_comment(pin[o]) {
-                            res.viols.push(Viol { prop: "C02", clause: "identifier_case", detail: format!("identifier {:?} became {:?}: {:?}", pin[o].text(text), pout[o].text(&out), crate::mon::context(&out, pout[o].content_start())) });
+                            // where the name stands (for the words platform / deprecated / experimental the unchanged tree
+                            // takes the name for the directive in four places: see known finding F18)
+                            let word = pin[o].text(text).to_ascii_lowercase();
+                            let lower = |k: usize| pin[k].text(text).to_ascii_lowercase();
+                            let mut site = String::new();
+                            if matches!(word.as_str(), "platform" | "deprecated" | "experimental") && o > 0 {
+                                let prev = lower(o - 1);
+                                // the declaration the name is in: back to the previous `;`
+                                let mut b = o;
+                                let mut depth = 0i32;
+                                while b > 0 {
+                                    match pin[b - 1].text(text) {
+                                        ")" | "]" => depth += 1,
+                                        "(" | "[" => depth -= 1,
+                                        ";" if depth <= 0 => break,
+                                        _ => {}
+                                    }
+                                    b -= 1;
+                                }
+                                let decl: Vec<String> = (b..o).map(lower).collect();
+                                let head = decl.first().map(|x| x.as_str()).unwrap_or("");
+                                let in_routine = decl.iter().any(|w| w == "function" || w == "procedure");
+                                site = if matches!(head, "unit" | "program" | "package") && decl.iter().skip(1).all(|w| w == "." || w.chars().all(|c| c.is_alphanumeric() || c == '_' || c == '&')) {
+                                    " [site: portability word as unit name]".into()
+                                } else if prev == "absolute" {
+                                    " [site: portability word as absolute target]".into()
+                                } else if prev == "of" && in_routine {
+                                    " [site: portability word as element type of a routine's result]".into()
+                                } else if matches!(prev.as_str(), "read" | "write" | "stored" | "default" | "implements") && decl.iter().any(|w| w == "property") {
+                                    " [site: portability word as property accessor]".into()
+                                } else {
+                                    String::new()
+                                };
+                            }
+                            res.viols.push(Viol { prop: "C02", clause: "identifier_case", detail: format!("identifier {:?} became {:?}: {:?}{site}", pin[o].text(text), pout[o].text(&out), crate::mon::context(&out, pout[o].content_start())) });
                             break;
                         }
                     }
